@@ -628,3 +628,40 @@ prop('C15',
      'them with the model\'s tokens of the edited line; registration orders and counts beyond the table size are '
      'looked up name by name.',
      level_note='Outside the unambiguous domain only safety and structure are checked. LP64 only.')
+
+# ----------------------------------------------------------------------- C08
+import ptgen
+
+
+def pt_stage(name, preset, cc, nfiles, per, tiers=('quick', 'thorough')):
+    return Stage(name, ['harness/pt_driver.c'], [], preset=preset, cc=cc, nproc=8, tiers=tiers,
+                 pregen=ptgen.pregen(nfiles, per), needs_min={'programs_run': nfiles * per * 9 // 10, 'invocations': 1000},
+                 timeout={'quick': 600, 'thorough': 3600})
+
+
+prop('C08',
+     'generated protothread programs (6-40 statements: effects, assignments to persistent variables, if/else, bounded '
+     'for loops over persistent counters nested to depth 3, PT_YIELD, PT_WAIT, PT_WAIT_UNTIL with a counted side '
+     'effect, PT_EXIT(_ON), PT_FAIL(_ON), PT_SPAWN, PT_SPAWN_AND_CHECK, PT_CALL, PT_CHILD_OK; children to depth 3), each '
+     'rendered as C over the real protothreads.h and executed by a Python-generator interpreter for the expected '
+     'trace; every program is invoked to completion twice (PT_INIT in between) and the return code and side effects of '
+     'every invocation compared. Non-trivial = program with a blocking point inside a loop inside a conditional, a '
+     'spawn inside a loop, or a failing child; programs are distinct by construction (id), counted.',
+     [pt_stage('gcc-O1', 'asan', 'gcc', 8, 100),
+      pt_stage('clang-O1', 'asan', 'clang', 4, 100),
+      pt_stage('gcc-O2-more', 'asan-O2', 'gcc', 16, 400, tiers=('thorough',)),
+      pt_stage('gcc-O0-more', 'asan-O0', 'gcc', 16, 400, tiers=('thorough',)),
+      pt_stage('clang-O2-more', 'asan-O2', 'clang', 16, 400, tiers=('thorough',))],
+     assumptions=['Python generator semantics are "a sequential program cut at its blocking points" (the reference)',
+                  'scope of the statement: one PT_* blocking macro per source line, none inside a nested switch, '
+                  'PT_CHILD_OK consulted before the next blocking point, re-invocation after exit only after PT_INIT; '
+                  'PT_CALL runs the child to completion within one invocation of the parent'],
+     engine='E1', technique='runtime monitoring over generated programs: differential execution of the real PT_* macros '
+     'against a generator-based reference semantics, trace oracle per invocation, ASan+UBSan, two compilers and three '
+     'optimisation levels',
+     level_text='Exploration over programs. Hundreds (quick) to tens of thousands (thorough) of generated protothread '
+     'bodies are compiled against the real protothreads.h with gcc and clang, run under ASan+UBSan, and the return code '
+     'and side effects of every invocation are compared with the trace obtained by running the same abstract program '
+     'as Python generators.',
+     level_note='A sample of the program space; only what the grammar can express (no local variables across blocking '
+     'points, no nested switch).')
